@@ -323,6 +323,27 @@ package environment
 //@   on store var.wfState : assert !armed
 
 // ---------------------------------------------------------------------------------------------------------
+// C03: a task that announces an internal error has failed, whatever its environment is doing: its role is told ERROR
+// (for a critical task that takes the workflow, and through the watcher the environment, to ERROR - also in CONFIGURED),
+// and the run is stopped on its account only if the task is critical ("the same failures of a non-critical task never
+// change the environment's state").
+//@ func (envs *Manager) handleDeviceEvent(evt event.DeviceEvent)
+//@   property C03
+//@   ghostvar isIntErr bool = false
+//@   ghostvar envFound bool = false
+//@   ghostvar told bool = false
+//@   ghostvar asked bool = false
+//@   ghostvar crit bool = false
+//@   on aftercall .GetType : isIntErr = (result == pb.DeviceEventType_TASK_INTERNAL_ERROR)
+//@   on aftercall (*Manager).environment : envFound = (result1 == nil)
+//@   on call .UpdateState : told = told || arg0 == sm.ERROR
+//@   on aftercall .GetTaskTraits : asked = true ; crit = result.Critical
+//@   ghostvar hasRole bool = false
+//@   on aftercall (*task.Task).GetParent : hasRole = result != nil
+//@   on go (*core/environment.Manager).handleDeviceEvent$2 : assert asked && crit && told
+//@   ensures isIntErr && envFound && hasRole ==> told
+
+// ---------------------------------------------------------------------------------------------------------
 // C04: a detector is part of at most one active environment: the new environment is registered only after every
 // detector it needs was found absent from the set of detectors active in the other environments.
 // every environment that has a workflow counts, whatever its state (an environment in ERROR still owns its tasks and
